@@ -484,9 +484,9 @@ def run(ctx):
     if quick:
         jobs.append(("mc", lambda: run_mc(ctx, "all-inputs", pcs=PCS_ALL, maxdeq=2, maxatt=2, maxrs=1, workers=w)))
         jobs.append(("tour", lambda: gen(ctx, "tour", "tour", pcs=pcs, star=True, maxdeq=9, maxatt=7, maxrs=3, workers=4)))
-        jobs.append(("edges", lambda: gen(ctx, "edges", "edges", pcs=["all256"], hcs=["sensmix"], srcs=["ingress"], vias=["handler"],
+        jobs.append(("edges", lambda: gen(ctx, "edges", "edges", pcs=["all256"], hcs=["plain", "sensmix"], vias=["handler"],
                                           shapes=["single"], maxdeq=2, maxatt=2, maxrs=1, workers=4)))
-        jobs.append(("sim", lambda: gen(ctx, "sim", "sim", depth=14, simulate=100, pcs=pcs, free=True, maxdeq=8, maxatt=8, maxrs=3,
+        jobs.append(("sim", lambda: gen(ctx, "sim", "sim", depth=14, simulate=150, pcs=pcs, free=True, maxdeq=8, maxatt=8, maxrs=3,
                                         minend=3)))
     else:
         jobs.append(("mc", lambda: run_mc(ctx, "all-inputs-free", pcs=PCS_ALL, free=True, maxdeq=3, maxatt=3, maxrs=2, timeout=1500,
@@ -525,7 +525,13 @@ def run(ctx):
     triage(ctx, res, all_scheds)
     # ---- non-vacuity
     C = tally(ctx, merged)
-    non_vacuity(ctx, C, pcs)
+    try:
+        non_vacuity(ctx, C, pcs)
+    except vf.Infra as e:
+        # a confirmed divergence can itself empty a counter (e.g. nothing is refused any more); the verdict stands
+        if not ctx.violations:
+            raise
+        ctx.notes.append("non-vacuity counters incomplete in a run with confirmed divergences: %s" % e)
     shared = sum(v for k, v in C.items() if k.startswith("store_dequeue_alias/") and k.endswith("/shared"))
     if shared:
         ctx.notes.append("informational: queue.Store.Dequeue of the memory backend returns envelopes that share the payload slice and "
